@@ -317,6 +317,73 @@ def run(ctx):
     ctx.ob("R11.15", "parse_identifier vs skip_identifier", not bad15, site=A.where(fpi), detail={"mismatches": bad15[:6]},
            what="the scanner's identifier parser and the checker's disagree on %s: the checker counts one value where the scanner stops in the middle of the word" % bad15[:3])
 
+    # ---- R11.18: what counts as the `N x` of a repetition
+    ctx.rule("R11.18", "MULTIPLIER: is_range_multiplier (used by checker and scanner alike), evaluated on probe words, says yes exactly for a decimal count that does not begin with 0 directly followed by `x` - "
+                       "`10x1`, `105x2.5`, `20x\"a\"` are repetitions (ten equal values are printed as `10x7`), `0x1f` is a hexadecimal number")
+    fmul = u.function("is_range_multiplier")
+    MUL_PROBES = [("3x4", True), ("1x1", True), ("9x7", True), ("10x1", True), ("20x\"a\"", True), ("105x2.5", True), ("100x[1 2]", True), ("1000x0", True), ("12x", True),
+                  ("0x1f", False), ("0x10", False), ("x3", False), ("3", False), ("12 x3", False), ("3y4", False), ("", False), ("a3x4", False), ("-3x4", False), ("3.5x2", False)]
+    bad18 = []
+    for word18, want18 in MUL_PROBES:
+        text18 = word18 + "\0"
+
+        def deref18(a_, n_, text18=text18):
+            k_ = a_ - 4096
+            if 0 <= k_ < len(text18) + 4:
+                return ord(text18[k_]) if k_ < len(text18) else 0
+            raise FD.Unknown("read at offset %d" % k_, n_)
+
+        def hook18(n_, ev_):
+            if n_.get("kind") == "BinaryOperator" and n_.get("opcode") == "&":
+                enum = [y["referencedDecl"]["name"] for y in A.walk(A.kids(n_)[1]) if y.get("kind") == "DeclRefExpr" and (y.get("referencedDecl") or {}).get("kind") == "EnumConstantDecl"]
+                subs = [y for y in A.walk(A.kids(n_)[0]) if y.get("kind") == "ArraySubscriptExpr"]
+                if len(enum) == 1 and enum[0].startswith("_IS") and subs:
+                    v_ = ev_.ev(A.kids(subs[0])[1])
+                    c_ = chr(v_) if 0 < v_ < 128 else ""
+                    pred = {"_ISalpha": str.isalpha, "_ISdigit": str.isdigit, "_ISalnum": str.isalnum, "_ISspace": str.isspace}.get(enum[0])
+                    if pred is None:
+                        raise FD.Unknown("ctype class " + enum[0], n_)
+                    return 1 if c_ and pred(c_) else 0
+            return NotImplemented
+
+        def call18(nm, vals, n_):
+            if nm in ("isalpha", "isalnum", "isdigit", "isspace"):
+                c_ = chr(vals[0]) if 0 < vals[0] < 128 else ""
+                return 1 if c_ and getattr(c_, nm)() else 0
+            if nm in ("strchr", "__builtin_strchr") and isinstance(vals[0], int):
+                i_ = 0
+                while True:
+                    b_ = deref18(vals[0] + i_, n_)
+                    if b_ == (vals[1] & 0xff):
+                        return vals[0] + i_
+                    if not b_:
+                        return 0
+                    i_ += 1
+            if nm in ("strspn", "strcspn") and isinstance(vals[0], int) and isinstance(vals[1], str):
+                i_ = 0
+                while deref18(vals[0] + i_, n_) and ((chr(deref18(vals[0] + i_, n_)) in vals[1]) == (nm == "strspn")):
+                    i_ += 1
+                return i_
+            raise FD.Unknown("call to %s" % nm, n_)
+
+        def lit18(n_, ev_):
+            r_ = hook18(n_, ev_)
+            if r_ is not NotImplemented:
+                return r_
+            if n_.get("kind") == "StringLiteral":
+                return A.string_literal(n_)
+            if n_.get("kind") == "ImplicitCastExpr" and n_.get("castKind") == "ArrayToPointerDecay" and A.kids(n_) and A.string_literal(A.kids(n_)[0]) is not None:
+                return A.string_literal(A.kids(n_)[0])
+            return NotImplemented
+        try:
+            got18 = FD.Eval(deref=deref18, node_hook=lit18, call=call18, max_steps=2000).call_function(u, fmul, [4096])
+        except FD.Unknown as e:
+            raise AnalysisBroken("R11.18: is_range_multiplier not evaluable on %r: %s" % (word18, e))
+        if bool(got18) != want18:
+            bad18.append({"word": word18, "taken_for_a_repetition": bool(got18), "expected": want18})
+    ctx.ob("R11.18", "is_range_multiplier", not bad18, site=A.where(fmul), detail={"probes": len(MUL_PROBES), "mismatches": bad18[:6]},
+           what="is_range_multiplier, evaluated on probe words: %s" % bad18[:4])
+
     # ---- R11.17: the scanner's choice of the value a range counts on from, evaluated
     ctx.rule("R11.17", "LEFT-NEIGHBOUR (scanner): the statements of rtosc_scan_arg_val that compute what it hands to delta_from_arg_vals as the value before the range, evaluated on 13 slot layouts "
                        "of the arguments already scanned, choose the slot before lhs after a scalar or a repetition `N x v`, the last element of a range with delta, and nothing after an array or at the start - "
